@@ -1,4 +1,5 @@
 import AasVerif.Model.SortedEmit
+import AasVerif.Model.OutDir
 namespace AasVerif.Drive.C22
 open AasVerif AasVerif.SortedEmit
 
@@ -22,6 +23,8 @@ def enumFrom : Nat → List Text → List (Text × Nat)
 * `sorttexts <list>` → `sorted(list)`
 * `emit <keys in insertion order>` → keys of the emitted `definitions` (values are the insertion indices)
 * `xsd <tags> <flags> <names>` → uids of the children after `_sort_by_tags_and_names_in_place`
+* `outdir <paths before> <contents before> <paths written> <contents written> <queried paths>` →
+  per queried path `31.<content>` (a file with that content) or `30` (no file) after the writing loop
 -/
 def handle : List String → Option String
   | ["sorttexts", l] => do
@@ -40,6 +43,17 @@ def handle : List String → Option String
     match xsdSort elts with
     | some out => some (showIdx (out.map Elt.uid))
     | none => some "crash:AssertionError"
+  | ["outdir", hp, hc, wp, wc, qs] => do
+    let hp ← Text.decList hp
+    let hc ← Text.decList hc
+    let wp ← Text.decList wp
+    let wc ← Text.decList wc
+    let qs ← Text.decList qs
+    if hp.length != hc.length || wp.length != wc.length then none else
+    let fs := OutDir.writeAll (hp.zip hc) (wp.zip wc)
+    some (Text.encList (qs.map (fun q => match OutDir.read fs q with
+      | some c => 49 :: c
+      | none => [48])))
   | _ => none
 
 end AasVerif.Drive.C22
